@@ -24,6 +24,10 @@ def eng(name, profile, quick, thorough, tags):
     return dict(name=name, family="engine", profile=profile, quick=quick, thorough=thorough, tags=tags)
 
 
+def sat(name, family, quick, thorough, tags, shard=400):
+    return dict(name=name, family=family, quick=quick, thorough=thorough, tags=tags, shard=shard)
+
+
 PROPS = {
     "C01": dict(theorems=["C01_engine_computes_semantics"], cone=ENGINE_CONE, rule=ENGINE_RULE,
                 families=[eng("engine", "C01", 1200, 20000, ["sat", "panic"])]),
@@ -41,4 +45,22 @@ PROPS = {
                 families=[eng("engine", "C10", 1200, 20000, ["issues", "first", "panic"])]),
     "C12": dict(theorems=["C12_engine_computes_semantics"], cone=ENGINE_CONE, rule=ENGINE_RULE,
                 families=[eng("engine", "C12", 1200, 20000, ["calls", "args", "ctx", "haserr", "panic"])]),
+    "C15": dict(theorems=["C15_get_head_query", "C15_other_methods", "C15_json_iff", "C15_form_iff", "C15_params_ignored", "C15_decode_failure_struct",
+                          "C15_decode_failure_ptr", "C15_empty_object", "C15_url_missing", "C15_url_single", "C15_url_repeated", "C15_url_brackets"],
+                cone=["Model/Http.v", "Proofs/HttpP.v", "Model/Engine.v"],
+                rule="method x Content-Type grid (standard, unknown and lower-case methods; parameters, empty, malformed and random media types) with the dispatch observed through recording Config.Parsers; query strings x keys for urlDataProvider.Get; non-trivial = a non-GET/HEAD request or a present/repeated parameter; distinct = distinct (method, content type) or (query, key)",
+                families=[sat("http", "http", 1200, 12000, ["dispatch", "urlget", "dispatch_rfc", "dispatch_media"])]),
+    "C18": dict(theorems=["C18_float_to_int_exact", "C18_nan_inf_rejected", "C18_float_out_of_range_rejected", "C18_int_from_int_exact", "C18_int_in_range",
+                          "C18_int32_in_range", "C18_int32_accepts", "C18_int32_rejects", "C18_int64_accepts", "C18_f64_identity",
+                          "C18_f32_rounds_never_to_infinity", "C18_f32_overflow_rejected"],
+                cone=["Model/Coerce.v", "Proofs/NumericP.v"],
+                rule="every (input representation, numeric schema kind) pair on boundary-directed inputs (+-2^31, +-2^63, 2^24/2^53 neighbours via nextafter, max float32 and successors, decimal/exponent strings, NaN/Inf) plus random bit patterns; the destination is compared bit-exactly with the model and, independently, with an exact big.Rat oracle; distinct = distinct (kind, input)",
+                families=[sat("numeric", "numeric", 2500, 40000, ["coerce", "numeric_oracle"])]),
+    "C20": dict(theorems=["C20_str_min", "C20_str_max", "C20_str_len", "C20_slice_min", "C20_slice_max", "C20_slice_len", "C20_int_cmp", "C20_float_cmp",
+                          "C20_nan_fails_every_comparison", "C20_str_oneof", "C20_int_oneof", "C20_slice_contains", "C20_has_prefix", "C20_has_suffix",
+                          "C20_contains", "C20_classes", "C20_contains_upper", "C20_contains_digit", "C20_contains_special", "C20_uuid",
+                          "C20_time_after", "C20_time_before", "C20_time_eq"],
+                cone=["Model/Preds.v", "Proofs/PredsP.v"],
+                rule="single-test schemas for every built-in of every type; subjects at n-1, n, n+1, all 256 single bytes for the character classes, class-edge characters, multi-byte and invalid UTF-8, equal instants in three zones +-1ns, NaN/Inf/-0 and nextafter neighbours, near-miss UUIDs and e-mail addresses (every position perturbed, label lengths 61..64), slices of strings, ints and pointers; plus random; distinct = distinct (test, parameter) pairs",
+                families=[sat("preds", "preds", 7000, 30000, ["pred"])]),
 }
